@@ -172,7 +172,7 @@ func Run(c *hx.Ctx) {
 	d.buildCheck(d.maxN, c.N(64, 160))
 	d.proofsCheck(d.maxN, "mem")
 	d.proofsCheck(c.N(33, 70), "file")
-	d.genCases(c.N(64, 100))
+	d.genCases(c.N(48, 100))
 	d.reloadChecks()
 	d.rawVerifier(c.N(150, 1500))
 	d.edgeNotes()
